@@ -55,7 +55,7 @@ manifest = {
         "name": "lean4-model+rust-correspondence",
         "path": "/verif/lean, /verif/harness, /verif/check",
         "serves_properties": sorted(claimed),
-        "kind_free_text": "Lean 4 models and theorems (lake project RoutinatorModel, driver rvdriver) tied to /repo "
+        "kind_free_text": "Lean 4 models and theorems (lake project RoutinatorModel, one driver executable drv-<group> per group) tied to /repo "
                           "by a Rust harness that runs the real code and the model on the same generated cases",
     }],
     "checks": checks,
